@@ -7,11 +7,12 @@ META = {
     "driver_id": "Edit",
     "coq_targets": ["Props/C05.vo", "Extract/Extract_Edit.vo"],
     "technique": 'Coq invariant / refinement proofs over the executable edit-machine model + step-by-step differential correspondence of the extracted model with the implementation + direct oracle on the implementation',
-    "level_text": 'Proved in Coq over the executable edit-machine model (Props/C05.v, all closed under the global context), for states satisfying the bundle LWF = cfg_ok (track and lineage features active) + W_dict (well-formed dictionaries, integer time / track id / lineage id on every node) + W_forest (C03) + W_lin (L1: lineage id constant along every edge, L2: distinct roots carry distinct ids) + W_book (C06): C05_global (on a forward-in-time forest W_lin is equivalent to: same lineage id iff connected ignoring direction); C05_update_track_ids (UpdateTrackIDs writes the new lineage id on exactly the start node and its descendants and leaves every other id alone); C05_cut / C05_graft (the two relabelling patterns - cut a subtree and give it an unused id, graft a root under an earlier node and give its tree that node\'s id - keep W_lin; pure graph statements); C05_delete_edge_ids, C05_add_edge_ids, C05_add_edge_accepted (every accepted UserDeleteEdge / UserAddEdge call - plain, division, and forced with removal of the old parent edge, top level or nested - leaves exactly the expected edge set, keeps the whole bundle, and the lineage id of every node afterwards is given explicitly: nodes below v get next_lin resp. the id of u, all others keep theirs); C05_step_delete_edge, C05_step_add_edge, C05_step_swap (after an accepted UserDeleteEdge / UserAddEdge / UserSwapPredecessors the bundle holds again and two nodes carry the same lineage id iff they are connected); C05_frame_delete_edge, C05_frame_add_edge, C05_frame_swap, C05_swap_ids (a node whose component contains none of the named nodes keeps its id; in fact only descendants of the named child nodes can change). C05_step_delete_node, C05_frame_delete_node, C05_step_add_node (UserDeleteNode / UserAddNode - without a caller-supplied lineage id - preserve configuration, dictionaries, forest, track ids, lineage ids and lookups together; a deletion changes lineage ids only strictly below the deleted node); C05_run_edge_calls (every state reachable from a well-formed state by any sequence, of any length, of edge-level calls - add / delete edge with and without force, swap, track queries, fresh ids - satisfies the complete invariant WF: dictionaries, forest, track ids, lineage ids, lookups, label/node correspondence, fresh features; induction over the call list); C05_run_node_calls (the same reachability statement with UserAddNode and UserDeleteNode included, accepted or refused, each UserAddNode respecting its documented preconditions - integer time / track id, no caller-supplied lineage id, and with a segmentation a non-zero id and background pixels of its own frame; Proofs/EditWFNodeExample.v shows three accepted calls outside these preconditions that break the invariant); C05_sessions (from a well-formed state with an empty history, EVERY state reached along ANY sequence - of any length - of calls of the WHOLE public interface of the edit machine - edge, swap, node, attribute and stroke edits, undo, redo, queries - accepted or refused, satisfies the complete invariant WF; hypotheses: three configuration facts no call changes, and the documented per-call preconditions of UserAddNode / node calls without segmentation at the moment each call is made; strokes, edge calls, attribute updates, undo and redo have none); C05_paint and C05_run_paint_calls (every accepted stroke yields a well-formed state; every refused stroke too, the rolled-back one included); C05_user_actions_are_generated (the seven composite user actions of the model equal, for all arguments, the code translated on every run from the current user_actions/*.py). NOT proved in Coq, resting only on the step-by-step differential correspondence of the extracted model with the implementation plus the all-pairs lineage oracle evaluated on the implementation after every step: nothing else (inverse replay), construction of the initial solution, and the part of the frame clause that speaks about the nodes of a named track.',
+    "level_text": 'Proved in Coq over the executable edit-machine model (Props/C05.v, all closed under the global context), for states satisfying the bundle LWF = cfg_ok (track and lineage features active) + W_dict (well-formed dictionaries, integer time / track id / lineage id on every node) + W_forest (C03) + W_lin (L1: lineage id constant along every edge, L2: distinct roots carry distinct ids) + W_book (C06): C05_global (on a forward-in-time forest W_lin is equivalent to: same lineage id iff connected ignoring direction); C05_update_track_ids (UpdateTrackIDs writes the new lineage id on exactly the start node and its descendants and leaves every other id alone); C05_cut / C05_graft (the two relabelling patterns - cut a subtree and give it an unused id, graft a root under an earlier node and give its tree that node\'s id - keep W_lin; pure graph statements); C05_delete_edge_ids, C05_add_edge_ids, C05_add_edge_accepted (every accepted UserDeleteEdge / UserAddEdge call - plain, division, and forced with removal of the old parent edge, top level or nested - leaves exactly the expected edge set, keeps the whole bundle, and the lineage id of every node afterwards is given explicitly: nodes below v get next_lin resp. the id of u, all others keep theirs); C05_step_delete_edge, C05_step_add_edge, C05_step_swap (after an accepted UserDeleteEdge / UserAddEdge / UserSwapPredecessors the bundle holds again and two nodes carry the same lineage id iff they are connected); C05_frame_delete_edge, C05_frame_add_edge, C05_frame_swap, C05_swap_ids (a node whose component contains none of the named nodes keeps its id; in fact only descendants of the named child nodes can change). C05_step_delete_node, C05_frame_delete_node, C05_step_add_node (UserDeleteNode / UserAddNode - without a caller-supplied lineage id - preserve configuration, dictionaries, forest, track ids, lineage ids and lookups together; a deletion changes lineage ids only strictly below the deleted node); C05_run_edge_calls (every state reachable from a well-formed state by any sequence, of any length, of edge-level calls - add / delete edge with and without force, swap, track queries, fresh ids - satisfies the complete invariant WF: dictionaries, forest, track ids, lineage ids, lookups, label/node correspondence, fresh features; induction over the call list); C05_run_node_calls (the same reachability statement with UserAddNode and UserDeleteNode included, accepted or refused, each UserAddNode respecting its documented preconditions - integer time / track id, no caller-supplied lineage id, and with a segmentation a non-zero id and background pixels of its own frame; Proofs/EditWFNodeExample.v shows three accepted calls outside these preconditions that break the invariant); C05_sessions (from a well-formed state with an empty history, EVERY state reached along ANY sequence - of any length - of calls of the WHOLE public interface of the edit machine - edge, swap, node, attribute and stroke edits, undo, redo, queries - accepted or refused, satisfies the complete invariant WF; hypotheses: three configuration facts no call changes, and the documented per-call preconditions of UserAddNode / node calls without segmentation at the moment each call is made; strokes, edge calls, attribute updates, undo and redo have none); C05_paint and C05_run_paint_calls (every accepted stroke yields a well-formed state; every refused stroke too, the rolled-back one included); C05_user_actions_are_generated (the seven composite user actions of the model equal, for all arguments, the code translated on every run from the current user_actions/*.py); C05_sessions_from_construction (the start state need not be assumed well formed: for every valid raw solution - forest, labels and nodes one-to-one, fresh feature table, true oracle partitions - the state constructed by enabling the core features with recomputation is well formed, so every session over the whole interface from it stays well formed). NOT proved in Coq, resting only on the step-by-step differential correspondence of the extracted model with the implementation plus the all-pairs lineage oracle evaluated on the implementation after every step: nothing else (inverse replay), construction of the initial solution, and the part of the frame clause that speaks about the nodes of a named track. C05_core_is_generated: one level further down, the queries, the node-id counter, Tracks.undo / redo and the seven basic actions with their inverses of the model equal the code translated on every run from solution_tracks.py, tracks.py, _track_annotator.py and actions/*.py (Gen/Core_gen.v; statement in Proofs/CoreTieBundle.v).',
     "level_note": 'Trusted: Coq kernel, extraction (ExtrOcamlBasic only), OCaml driver drv_Edit.ml, Python harness and oracles. Modelled, not verified: networkx DiGraph dict semantics, numpy indexing, skimage regionprops (symbolic: value = function of key, mask, spacing), psygnal. The theorems are about the hand-written model coq/Model/Edit.v; the tie to /repo is the step-by-step differential execution of the extracted model against the implementation on every run. Tied to the source in a second way: the history mechanism (action_history.py) and the seven composite user actions (user_actions/*.py) are re-translated on every run by fail-closed translators (harness/translate_history.py, translate_user_actions.py; closed idiom tables; runtime combinators Model/PyRt.v) and proved equal to the hand-written model for all arguments (Proofs/HistoryTie.v, UserActionsTie.v); trusted there: the idiom tables and combinators, and the stated conventions (get_time / successors on a missing node do not raise, StopIteration reported as KeyError, feature keys never None).',
     "design_ref": "DESIGN.md section 9 (C05)",
     "assumptions": ['the caller does not pass a lineage id to UserAddNode (outside its documented domain)', 'track_id and lineage_id features stay enabled during editing sessions', 'labels/ids are positive; times are frame indices within the array'],
-    "trusted": ["translators harness/translate_history.py and harness/translate_user_actions.py (closed idiom tables in their docstrings; fail closed) with the runtime combinators coq/Model/PyRt.v",
+    "trusted": ["translator harness/translate_core.py (closed idiom table; fail closed) with coq/Model/PyRt3.v; hand models left under it: regionprops / edge annotator update, bulk compute, networkx and array primitives",
+                "translators harness/translate_history.py and harness/translate_user_actions.py (closed idiom tables in their docstrings; fail closed) with the runtime combinators coq/Model/PyRt.v",
                 "correspondence harness harness/editmachine.py (scenario generator, canonicalisation, numeric references for regionprops / IoU)",
                 "oracles harness/edit_oracles.py"],
 }
@@ -30,6 +31,12 @@ def pre_build(ctx):
     translate_user_actions.regenerate(repo=str(__import__("common").REPO))
     if not translate_user_actions.LAST.get("ok"):
         raise RuntimeError("translator refused user_actions/*.py: %s" % translate_user_actions.LAST.get("msg"))
+    # the code the user actions call: queries, id counter, undo / redo, basic actions (Gen/Core_gen.v)
+    import translate_core
+
+    ok, msg = translate_core.regenerate()
+    if not ok:
+        raise RuntimeError("translator refused the core sources: %s" % msg)
 
 
 def run(ctx):
